@@ -497,3 +497,288 @@ Section Vector.
       split; intros; intuition discriminate.
   Qed.
 End Vector.
+
+(* ====================== range queries with a step-varying ratio ====================== *)
+Notation bf := (binary_float prec emax).
+Notation bnan := (@BinarySingleNaN.is_nan prec emax).
+
+Lemma Req_bool_iff a b : Req_bool a b = true <-> a = b.
+Proof. case Req_bool_spec; split; intros; try lra; try discriminate; auto. Qed.
+
+Ltac crush2 :=
+  unfold Bltb, Bleb, Beqb, SFltb, SFleb, SFeqb in *; simpl in *;
+  try discriminate; try reflexivity; try assumption.
+Ltac toR :=
+  repeat match goal with
+  | H : Bleb _ _ = true |- _ => rewrite Bleb_correct in H by assumption; apply Rle_bool_iff in H
+  | H : Bltb _ _ = true |- _ => rewrite Bltb_correct in H by assumption; apply Rlt_bool_iff in H
+  | H : Beqb _ _ = true |- _ => rewrite Beqb_correct in H by assumption; apply Req_bool_iff in H
+  | H : Bltb _ _ = false |- _ => rewrite Bltb_correct in H by assumption; revert H; case Rlt_bool_spec; [discriminate|intros H _]
+  end;
+  try (rewrite Bleb_correct by assumption; apply Rle_bool_iff);
+  try (rewrite Beqb_correct by assumption; apply Req_bool_iff);
+  try lra.
+Ltac full x := destruct x as [[|]|[|]| |[|] ? ? ?].
+
+Lemma Bleb_refl (x : bf) : bnan x = false -> Bleb x x = true.
+Proof.
+  intros N. destruct (is_finite x) eqn:Fx; [toR|full x; crush2].
+Qed.
+
+Lemma Bleb_total (x y : bf) : bnan x = false -> bnan y = false -> Bltb y x = false -> Bleb x y = true.
+Proof.
+  intros Nx Ny H.
+  destruct (is_finite x) eqn:Fx; [destruct (is_finite y) eqn:Fy|]; [toR| |]; full x; full y; crush2.
+Qed.
+
+Lemma Bleb_Beqb_r (x y z : bf) : Bleb x y = true -> Beqb y z = true -> Bleb x z = true.
+Proof.
+  intros H1 H2.
+  destruct (is_finite x) eqn:Fx; [destruct (is_finite y) eqn:Fy; [destruct (is_finite z) eqn:Fz|]|];
+    [toR| | |]; full x; full y; full z; crush2.
+Qed.
+
+Lemma Beqb_Bleb_l (x y z : bf) : Beqb x z = true -> Bleb x y = true -> Bleb z y = true.
+Proof.
+  intros H1 H2.
+  destruct (is_finite x) eqn:Fx; [destruct (is_finite y) eqn:Fy; [destruct (is_finite z) eqn:Fz|]|];
+    [toR| | |]; full x; full y; full z; crush2.
+Qed.
+
+Lemma Bleb_antisym (x y : bf) : Bleb x y = true -> Bleb y x = true -> Beqb x y = true.
+Proof.
+  intros H1 H2.
+  destruct (is_finite x) eqn:Fx; [destruct (is_finite y) eqn:Fy|]; [toR| |]; full x; full y; crush2.
+Qed.
+
+Lemma Beqb_both (x y z : bf) : Beqb x z = true -> Beqb y z = true -> Bleb x y = true.
+Proof.
+  intros H1 H2.
+  destruct (is_finite x) eqn:Fx; [destruct (is_finite y) eqn:Fy; [destruct (is_finite z) eqn:Fz|]|];
+    [toR| | |]; full x; full y; full z; crush2.
+Qed.
+
+Lemma Bleb_pinf (x : bf) : bnan x = false -> Bleb x (B754_infinity false) = true.
+Proof. intros N. full x; crush2. Qed.
+Lemma Bleb_ninf (x : bf) : bnan x = false -> Bleb (B754_infinity true) x = true.
+Proof. intros N. full x; crush2. Qed.
+
+(* ---------- Prim-level wrappers ---------- *)
+Notation pnan := PrimFloat.is_nan.
+Notation "x <=' y" := (PrimFloat.leb x y = true) (at level 70).
+
+Lemma P2B_inf : Prim2B infinity = B754_infinity false.
+Proof. rewrite infinity_equiv. apply Prim2B_B2Prim. Qed.
+Lemma P2B_ninf : Prim2B neg_infinity = B754_infinity true.
+Proof. rewrite neg_infinity_equiv. apply Prim2B_B2Prim. Qed.
+
+Lemma pleb_refl x : pnan x = false -> x <=' x.
+Proof. rewrite is_nan_equiv, leb_equiv. apply Bleb_refl. Qed.
+Lemma pleb_trans x y z : x <=' y -> y <=' z -> x <=' z.
+Proof. rewrite !leb_equiv. apply Bleb_trans. Qed.
+Lemma pleb_total x y : pnan x = false -> pnan y = false -> PrimFloat.ltb y x = false -> x <=' y.
+Proof. rewrite !is_nan_equiv, ltb_equiv, leb_equiv. apply Bleb_total. Qed.
+Lemma pltb_leb x y : PrimFloat.ltb x y = true -> x <=' y.
+Proof. rewrite ltb_equiv, leb_equiv. apply Bltb_Bleb. Qed.
+Lemma pleb_eqb_r x y z : x <=' y -> PrimFloat.eqb y z = true -> x <=' z.
+Proof. rewrite !leb_equiv, eqb_equiv. apply Bleb_Beqb_r. Qed.
+Lemma peqb_leb_l x y z : PrimFloat.eqb x z = true -> x <=' y -> z <=' y.
+Proof. rewrite !leb_equiv, eqb_equiv. apply Beqb_Bleb_l. Qed.
+Lemma pleb_antisym x y : x <=' y -> y <=' x -> PrimFloat.eqb x y = true.
+Proof. rewrite !leb_equiv, eqb_equiv. apply Bleb_antisym. Qed.
+Lemma peqb_both x y z : PrimFloat.eqb x z = true -> PrimFloat.eqb y z = true -> x <=' y.
+Proof. rewrite !eqb_equiv, leb_equiv. apply Beqb_both. Qed.
+Lemma pleb_pinf x : pnan x = false -> x <=' infinity.
+Proof. rewrite is_nan_equiv, leb_equiv, P2B_inf. apply Bleb_pinf. Qed.
+Lemma pleb_ninf x : pnan x = false -> neg_infinity <=' x.
+Proof. rewrite is_nan_equiv, leb_equiv, P2B_ninf. apply Bleb_ninf. Qed.
+
+(* math.Max / math.Min on non-NaN arguments: an upper / lower bound of both, and not NaN *)
+Lemma go_max_ub x y :
+  pnan x = false -> pnan y = false ->
+  pnan (go_max x y) = false /\ x <=' go_max x y /\ y <=' go_max x y.
+Proof.
+  intros Nx Ny. unfold go_max.
+  destruct (PrimFloat.eqb x infinity || PrimFloat.eqb y infinity).
+  { split; [reflexivity|split; now apply pleb_pinf]. }
+  rewrite Nx, Ny. simpl.
+  destruct (PrimFloat.eqb x zero && PrimFloat.eqb y zero) eqn:Z.
+  { apply andb_prop in Z. destruct Z as [Zx Zy].
+    destruct (get_sign x); (split; [|split]); auto using pleb_refl; eapply peqb_both; eassumption. }
+  destruct (PrimFloat.ltb y x) eqn:E; (split; [|split]); auto using pleb_refl, pltb_leb, pleb_total.
+Qed.
+
+Lemma go_min_lb x y :
+  pnan x = false -> pnan y = false ->
+  pnan (go_min x y) = false /\ go_min x y <=' x /\ go_min x y <=' y.
+Proof.
+  intros Nx Ny. unfold go_min.
+  destruct (PrimFloat.eqb x neg_infinity || PrimFloat.eqb y neg_infinity).
+  { split; [reflexivity|split; now apply pleb_ninf]. }
+  rewrite Nx, Ny. simpl.
+  destruct (PrimFloat.eqb x zero && PrimFloat.eqb y zero) eqn:Z.
+  { apply andb_prop in Z. destruct Z as [Zx Zy].
+    destruct (get_sign x); (split; [|split]); auto using pleb_refl; eapply peqb_both; eassumption. }
+  destruct (PrimFloat.ltb x y) eqn:E; (split; [|split]); auto using pleb_refl, pltb_leb, pleb_total.
+Qed.
+
+Lemma fold_max_ub fs : forall acc,
+  pnan acc = false -> existsb pnan fs = false ->
+  pnan (fold_left go_max fs acc) = false /\ acc <=' fold_left go_max fs acc /\
+  forall f, In f fs -> f <=' fold_left go_max fs acc.
+Proof.
+  induction fs as [|a fs IH]; simpl; intros acc Na Hn.
+  - split; [|split]; auto using pleb_refl; try (intros f []).
+  - apply orb_false_elim in Hn. destruct Hn as [Nf Hn].
+    destruct (go_max_ub acc a Na Nf) as (Nm & L1 & L2).
+    destruct (IH _ Nm Hn) as (N' & L' & Hall).
+    split; [|split]; auto.
+    + eapply pleb_trans; eassumption.
+    + intros f [<-|Hf]; [eapply pleb_trans; eassumption|auto].
+Qed.
+
+Lemma fold_min_lb fs : forall acc,
+  pnan acc = false -> existsb pnan fs = false ->
+  pnan (fold_left go_min fs acc) = false /\ fold_left go_min fs acc <=' acc /\
+  forall f, In f fs -> fold_left go_min fs acc <=' f.
+Proof.
+  induction fs as [|a fs IH]; simpl; intros acc Na Hn.
+  - split; [|split]; auto using pleb_refl; try (intros f []).
+  - apply orb_false_elim in Hn. destruct Hn as [Nf Hn].
+    destruct (go_min_lb acc a Na Nf) as (Nm & L1 & L2).
+    destruct (IH _ Nm Hn) as (N' & L' & Hall).
+    split; [|split]; auto.
+    + eapply pleb_trans; eassumption.
+    + intros f [<-|Hf]; [eapply pleb_trans; eassumption|auto].
+Qed.
+
+(* the early return of rangeEvalAgg fires only when every step's ratio is +-0 *)
+Lemma params_zero_all fs :
+  existsb pnan fs = false ->
+  PrimFloat.eqb (params_max fs) zero = true -> PrimFloat.eqb (params_min fs) zero = true ->
+  forall f, In f fs -> PrimFloat.eqb f zero = true.
+Proof.
+  intros Hn Hmax Hmin f Hf. unfold params_max, params_min in *.
+  destruct (fold_max_ub fs (PrimFloat.opp max_float64) eq_refl Hn) as (_ & _ & Hub).
+  destruct (fold_min_lb fs max_float64 eq_refl Hn) as (_ & _ & Hlb).
+  apply pleb_antisym.
+  - eapply pleb_eqb_r; [apply Hub, Hf|exact Hmax].
+  - eapply peqb_leb_l; [exact Hmin|apply Hlb, Hf].
+Qed.
+
+(* all NaNs are one value for primitive floats *)
+Lemma is_nan_eq f : pnan f = true -> f = nan.
+Proof.
+  rewrite is_nan_equiv. intros H. apply Prim2B_inj. rewrite nan_equiv, Prim2B_B2Prim.
+  destruct (Prim2B f); try discriminate. reflexivity.
+Qed.
+
+Lemma go_max_nan_r x : go_max x nan = nan \/ go_max x nan = infinity.
+Proof.
+  unfold go_max. replace (PrimFloat.eqb nan infinity) with false by reflexivity.
+  rewrite orb_false_r. destruct (PrimFloat.eqb x infinity); auto.
+  replace (pnan nan) with true by reflexivity. rewrite orb_true_r. auto.
+Qed.
+Lemma go_max_absorb x y : x = nan \/ x = infinity -> go_max x y = nan \/ go_max x y = infinity.
+Proof.
+  intros [->| ->]; unfold go_max.
+  - replace (PrimFloat.eqb nan infinity) with false by reflexivity. simpl.
+    destruct (PrimFloat.eqb y infinity); auto.
+  - replace (PrimFloat.eqb infinity infinity) with true by reflexivity. auto.
+Qed.
+Lemma fold_max_absorb fs : forall acc, acc = nan \/ acc = infinity ->
+  fold_left go_max fs acc = nan \/ fold_left go_max fs acc = infinity.
+Proof. induction fs; simpl; auto using go_max_absorb. Qed.
+Lemma fold_max_nan fs : forall acc, existsb pnan fs = true ->
+  fold_left go_max fs acc = nan \/ fold_left go_max fs acc = infinity.
+Proof.
+  induction fs as [|a fs IH]; simpl; intros acc H; [discriminate|].
+  destruct (pnan a) eqn:Na.
+  - rewrite (is_nan_eq a Na). apply fold_max_absorb, go_max_nan_r.
+  - apply IH. exact H.
+Qed.
+
+Section Range.
+  Variable L P : Type.
+  Variable hash : L -> Z.
+  Notation limit_ratio := (limit_ratio L P hash).
+  Notation limit_ratio_range := (limit_ratio_range L P hash).
+  Notation step_select := (step_select L P hash).
+
+  (* one step of a range query is the instant query with that step's ratio *)
+  Lemma step_is_instant f v : pnan f = false -> limit_ratio f v = Selected (step_select f v).
+  Proof.
+    intros N. unfold LimitRatio.limit_ratio, LimitRatio.step_select.
+    destruct (PrimFloat.eqb f zero); [reflexivity|]. now rewrite N.
+  Qed.
+
+  (* a range query with a step-varying ratio is the per-step map of the instant semantics:
+     the whole-range early return (all ratios zero) changes nothing *)
+  Lemma range_is_per_step fs vs :
+    length fs = length vs -> existsb pnan fs = false ->
+    limit_ratio_range fs vs =
+    RSelected (map (fun fv => step_select (fst fv) (snd fv)) (combine fs vs)).
+  Proof.
+    intros Hl Hn. unfold LimitRatio.limit_ratio_range. rewrite Hn.
+    destruct (PrimFloat.eqb (params_max fs) zero && PrimFloat.eqb (params_min fs) zero) eqn:E; [|reflexivity].
+    apply andb_prop in E. destruct E as [E1 E2].
+    pose proof (params_zero_all fs Hn E1 E2) as Hz. f_equal.
+    clear E1 E2 Hn. revert vs Hl. induction fs as [|f fs IH]; intros [|v vs] Hl; try discriminate; simpl; auto.
+    f_equal.
+    - unfold LimitRatio.step_select. now rewrite (Hz f (or_introl eq_refl)).
+    - apply IH; [intros g Hg; apply Hz; now right|]. now injection Hl.
+  Qed.
+
+  (* and it is an error iff some step's ratio is NaN *)
+  Lemma range_nan fs vs : existsb pnan fs = true -> limit_ratio_range fs vs = RErrNaN.
+  Proof.
+    intros Hn. unfold LimitRatio.limit_ratio_range. rewrite Hn.
+    unfold params_max. destruct (fold_max_nan fs (PrimFloat.opp max_float64) Hn) as [-> | ->]; reflexivity.
+  Qed.
+
+  Lemma combine_map_l {A B C} (g : A -> B) (l : list A) (l' : list C) :
+    combine (map g l) l' = map (fun ab => (g (fst ab), snd ab)) (combine l l').
+  Proof. revert l'. induction l; intros [|c l']; simpl; auto. now rewrite IHl. Qed.
+
+  Lemma in_combine_l_fs {A B} (l : list A) (l' : list B) a b : In (a, b) (combine l l') -> In a l.
+  Proof. apply in_combine_l. Qed.
+
+  (* the partition, per step of a range query, outside the gap *)
+  Lemma range_partition fs vs :
+    length fs = length vs ->
+    (forall f, In f fs -> PrimFloat.leb zero f = true /\ PrimFloat.leb f one = true) ->
+    (forall f v s, In (f, v) (combine fs vs) -> In s v ->
+       let off := sample_offset (hash (fst s)) in
+       PrimFloat.leb zero off = true /\ PrimFloat.ltb off one = true /\ in_gap f off = false) ->
+    limit_ratio_range fs vs =
+      RSelected (map (fun fv => step_select (fst fv) (snd fv)) (combine fs vs)) /\
+    limit_ratio_range (map complement fs) vs =
+      RSelected (map (fun fv => step_select (complement (fst fv)) (snd fv)) (combine fs vs)) /\
+    forall f v, In (f, v) (combine fs vs) -> forall s, In s v ->
+      (In s (step_select f v) <-> ~ In s (step_select (complement f) v)).
+  Proof.
+    intros Hl Hdom Hoff.
+    assert (Hfin : forall f, In f fs -> fin f /\ fin (complement f)).
+    { intros f Hf. destruct (Hdom f Hf) as [A B]. destruct (dom_r f A B) as [F R].
+      split; [exact F|]. now destruct (complement_R f F R). }
+    assert (N1 : existsb pnan fs = false).
+    { apply not_true_is_false. intros E. apply existsb_exists in E. destruct E as (f & Hf & Nf).
+      rewrite (fin_not_nan f (proj1 (Hfin f Hf))) in Nf. discriminate. }
+    assert (N2 : existsb pnan (map complement fs) = false).
+    { apply not_true_is_false. intros E. apply existsb_exists in E. destruct E as (c & Hc & Nc).
+      apply in_map_iff in Hc. destruct Hc as (f & <- & Hf).
+      rewrite (fin_not_nan _ (proj2 (Hfin f Hf))) in Nc. discriminate. }
+    split; [now apply range_is_per_step|].
+    split.
+    - rewrite range_is_per_step by (rewrite ?map_length; auto).
+      rewrite combine_map_l, map_map. reflexivity.
+    - intros f v Hfv s Hs.
+      assert (Hf : In f fs) by (eapply in_combine_l; eassumption).
+      destruct (Hdom f Hf) as [A B].
+      destruct (partition_vector L P hash f v A B (fun s0 Hs0 => Hoff f v s0 Hfv Hs0))
+        as (a & b & Ea & Eb & Hpart & _).
+      rewrite (step_is_instant f v (fin_not_nan f (proj1 (Hfin f Hf)))) in Ea.
+      rewrite (step_is_instant _ v (fin_not_nan _ (proj2 (Hfin f Hf)))) in Eb.
+      injection Ea as <-. injection Eb as <-. now apply Hpart.
+  Qed.
+End Range.
